@@ -18,6 +18,10 @@ sys.path.insert(0, os.path.dirname(os.path.dirname(os.path.abspath(__file__))))
 from harness import common as C  # noqa: E402
 
 
+# properties whose Properties file depends on coq/Generated/*.v (written by harness/translate.py on every run)
+TRANSLATED = {'C04'}
+
+
 def theorem_names(path):
     text = C.strip_comments(open(path).read())
     return re.findall(r'^\s*(?:Theorem|Corollary)\s+([A-Za-z0-9_\']+)', text, re.M)
@@ -65,6 +69,11 @@ def check_proofs(prop, tier, extra_targets=()):
         info['failed'].append('Properties/%s.v missing' % prop)
         info['obligations'] = 1
         return info
+    if prop in TRANSLATED:
+        # regenerate the Gallina text of the translated functions from the tree under test (fail closed)
+        from harness import translate
+        for problem in translate.regenerate():
+            info['failed'].append(problem)
     names = theorem_names(pfile)
     info['theorems'] = names
     info['obligations'] = len(names)
